@@ -11,7 +11,7 @@ from typing import Any, Dict, List, Optional
 import z3
 
 from .classtable import (Ty, TBool, TInt, TReal, TStr, TDT, TVal, TNode, TSeq, TSet, TOpt, TEnum, TMap, DT_BITS)
-from .values import (SV, Rec, Box, Exc, BoundMethod, VirtualMethod, Closure, FunSym, Opaque, PyRaise,
+from .values import (MetaBox, SV, Rec, Box, Exc, BoundMethod, VirtualMethod, Closure, FunSym, Opaque, PyRaise,
                      ReturnSig, Untranslatable, is_concrete)
 from .interp_expr import BuiltinMethod, Frame
 from . import recfuns
@@ -107,6 +107,8 @@ class BuiltinsMixin:
         if not args:
             return Box('dict', items=dict(kwargs))
         v = args[0]
+        if isinstance(v, MetaBox):
+            return MetaBox(('copy', v.owner))
         if isinstance(v, Box) and v.kind == 'dict' and v.items is not None:
             return Box('dict', items=dict(v.items))
         if isinstance(v, dict):
@@ -733,6 +735,14 @@ class BuiltinsMixin:
             else:
                 raise Untranslatable('dict.update with symbolic mapping')
         b.items.update(kwargs)
+
+    # metadata dicts: contents not interpreted (see values.MetaBox)
+    def bm_meta_update(self, m, args, kwargs, fr, node):
+        self.meta_ops.append(('update', m.owner))
+        return None
+
+    def bm_meta_get(self, m, args, kwargs, fr, node):
+        raise Untranslatable('read of metadata contents')
 
     # maps (symbolic dicts)
     def bm_map_get(self, m: SV, args, kwargs, fr, node):
